@@ -12,6 +12,7 @@ static GLOBAL: alloc::SimAlloc = alloc::SimAlloc;
 
 mod alloc;
 mod array_engine;
+mod cursor;
 mod elem;
 mod gen;
 mod model;
@@ -207,6 +208,8 @@ fn worker(args: &[String]) -> i32 {
                 break;
             }
         }
+    } else if matches!(prop.as_str(), "C08" | "C09" | "C10") {
+        return cursor_worker(prop, thorough, seed, build, start, end, hashfile, digest);
     } else {
         eprintln!("unknown property {}", prop);
         return 2;
@@ -238,6 +241,64 @@ fn worker(args: &[String]) -> i32 {
     0
 }
 
+fn write_hashes(hashfile: &str, hashes: &BTreeSet<u64>) -> bool {
+    let mut bytes = Vec::with_capacity(hashes.len() * 8);
+    for h in hashes {
+        bytes.extend_from_slice(&h.to_le_bytes());
+    }
+    std::fs::write(hashfile, &bytes).is_ok()
+}
+
+fn cviol_to_viol(v: cursor::CViol) -> Viol {
+    Viol { kind: v.kind, detail: v.detail, step: v.step, op: v.op, fault: None, after_fault: false, after_leak: false }
+}
+
+#[allow(clippy::too_many_arguments)]
+fn cursor_worker(prop: &str, thorough: bool, seed: u64, build: &str, start: u64, end: u64, hashfile: &str, digest: bool) -> i32 {
+    let mut stats = cursor::CStats::default();
+    let mut hashes = BTreeSet::new();
+    let (mut runs, mut nontrivial, mut n_viol) = (0u64, 0u64, 0u64);
+    let mut samples: Vec<serde_json::Value> = Vec::new();
+    for run in start..end {
+        raw_out(&format!("B {}\n", run));
+        let mut rng = Rng::new(run_seed(seed, prop, build, run));
+        let t = cursor::gen_trace(&mut rng, prop, thorough);
+        let y0 = stats.yielded;
+        let res = cursor::exec(&t, &mut stats);
+        runs += 1;
+        let h = fnv(&serde_json::to_vec(&t).unwrap());
+        if digest {
+            let v = res.as_ref().err().map(|v| format!("{}|{}|{}", v.kind, v.step, v.detail)).unwrap_or_default();
+            raw_out(&format!("D {} {:016x} 1\n", run, mix(&[h, fnv(v.as_bytes()), stats.calls])));
+        }
+        if stats.yielded - y0 >= 3 {
+            nontrivial += 1;
+            hashes.insert(h);
+            if start == 0 && samples.len() < 3 {
+                samples.push(serde_json::to_value(&t).unwrap());
+            }
+        }
+        if let Err(v) = res {
+            n_viol += 1;
+            let tf = TraceFile { engine: "cursor".into(), property: prop.to_string(), build: build.to_string(), seed, run, violation: Some(cviol_to_viol(v)), trace: serde_json::to_value(&t).unwrap() };
+            raw_out(&format!("V {}\n", serde_json::to_string(&serde_json::json!({"variant": 0, "file": tf})).unwrap()));
+            if n_viol >= 8 {
+                break;
+            }
+        }
+    }
+    if !write_hashes(hashfile, &hashes) {
+        return 2;
+    }
+    let out = serde_json::json!({
+        "runs": runs, "evaluations": runs, "nontrivial": nontrivial, "steps": stats.calls, "elements_yielded": stats.yielded,
+        "probes": stats.probes, "receivers": stats.receivers, "iterators": stats.iters, "skipped_steps": stats.skipped,
+        "owned_violations": n_viol, "samples": samples, "foreign": {},
+    });
+    raw_out(&format!("S {}\n", out));
+    0
+}
+
 fn journal_cmd(args: &[String]) -> i32 {
     let prop = &args[0];
     let thorough = args[1] == "thorough";
@@ -253,6 +314,16 @@ fn journal_cmd(args: &[String]) -> i32 {
             if let Some(v) = o.viol {
                 println!("J-VIOL {}", serde_json::to_string(&v).unwrap());
             }
+        }
+        0
+    } else if matches!(prop.as_str(), "C08" | "C09" | "C10") {
+        let mut rng = Rng::new(run_seed(seed, prop, build, run));
+        let t = cursor::gen_trace(&mut rng, prop, thorough);
+        // the whole trace is known before anything executes: journal it first
+        let _ = f.write_all(format!("{}\n", serde_json::to_string(&t).unwrap()).as_bytes());
+        let mut st = cursor::CStats::default();
+        if let Err(v) = cursor::exec(&t, &mut st) {
+            println!("J-VIOL {}", serde_json::to_string(&cviol_to_viol(v)).unwrap());
         }
         0
     } else {
@@ -293,6 +364,22 @@ fn exec_cmd(args: &[String]) -> i32 {
                 serde_json::json!({"owned": own, "viol": v})
             });
             println!("R {}", serde_json::json!({"violation": v, "steps_done": o.trace.steps.len()}));
+            0
+        }
+        "cursor" => {
+            let trace: cursor::CursorTrace = match serde_json::from_value(tf.trace.clone()) {
+                Ok(t) => t,
+                Err(e) => {
+                    eprintln!("bad cursor trace: {}", e);
+                    return 2;
+                }
+            };
+            if let Some(p) = args.get(1) {
+                let _ = std::fs::write(p, format!("{}\n", serde_json::to_string(&trace).unwrap()));
+            }
+            let mut st = cursor::CStats::default();
+            let v = cursor::exec(&trace, &mut st).err().map(|v| serde_json::json!({"owned": true, "viol": cviol_to_viol(v)}));
+            println!("R {}", serde_json::json!({"violation": v, "steps_done": trace.calls.len()}));
             0
         }
         other => {
